@@ -156,23 +156,25 @@ theorem good_setStatus {base : Image A} {nd : Node A} (h : Good base nd) {a : Ch
 
 theorem deliver_spec {base : Image A} {nd : Node A} (hA : A.Lawful) (cfg : Cfg) (h : Good base nd)
     (b : Blk) (p : Chain) :
-    Good base (deliver cfg nd b p).1 ∧ Ext nd (deliver cfg nd b p).1 := by
+    Good base (deliver cfg nd b p).1 ∧ Ext nd (deliver cfg nd b p).1 ∧
+    (((deliver cfg nd b p).2 = .okMain ∨ (deliver cfg nd b p).2 = .okSide) →
+      (b :: p) ∈ keys (deliver cfg nd b p).1.img.rows) := by
   unfold deliver
   simp only
   by_cases h1 : (b :: p) ∈ keys nd.index
-  · rw [if_pos h1]; exact ⟨h, Ext.refl nd⟩
+  · rw [if_pos h1]; exact ⟨h, Ext.refl nd, fun hh => by simp at hh⟩
   rw [if_neg h1]
   by_cases h2 : (b :: p) ∈ nd.orphans
-  · rw [if_pos h2]; exact ⟨h, Ext.refl nd⟩
+  · rw [if_pos h2]; exact ⟨h, Ext.refl nd, fun hh => by simp at hh⟩
   rw [if_neg h2]
   by_cases h3n : p ∉ keys nd.index
   · rw [if_pos h3n]
     exact ⟨⟨⟨h.core.img_eq, h.core.sound, h.core.created, h.core.tip_eq, h.core.idx_closed,
-      h.core.idx_rows, h.core.dirty_idx⟩, h.utxo_eq, h.marker_some⟩, fun _ hx => hx, fun _ hx => hx, fun hm => hm⟩
+      h.core.idx_rows, h.core.dirty_idx⟩, h.utxo_eq, h.marker_some⟩, ⟨fun _ hx => hx, fun _ hx => hx, fun hm => hm, fun _ hx => hx, List.prefix_refl _⟩, fun hh => by simp at hh⟩
   rw [if_neg h3n]
   have h3 : p ∈ keys nd.index := Decidable.not_not.mp h3n
   by_cases h4 : (statusOf nd.index p).knownInvalid = true
-  · rw [if_pos h4]; exact ⟨h, Ext.refl nd⟩
+  · rw [if_pos h4]; exact ⟨h, Ext.refl nd, fun hh => by simp at hh⟩
   rw [if_neg h4]
   -- store, index row
   obtain ⟨c1, e1⟩ := core_step (nd' := emit nd (.storeBlock (b :: p))) h.core (c := .storeBlock (b :: p))
@@ -186,7 +188,9 @@ theorem deliver_spec {base : Image A} {nd : Node A} (hA : A.Lawful) (cfg : Cfg) 
   have hst3 : (b :: p) ∈ (flushDirty (setStatus (emit nd (.storeBlock (b :: p))) (b :: p) {})).img.stored :=
     e3.1 _ (e2.1 _ hst1)
   have e03 := Ext.trans e1 (Ext.trans e2 e3)
-  generalize flushDirty (setStatus (emit nd (.storeBlock (b :: p))) (b :: p) {}) = nd3 at g3 hidx3 hst3 e03 ⊢
+  have hrow3 : (b :: p) ∈ keys (flushDirty (setStatus (emit nd (.storeBlock (b :: p))) (b :: p) {})).img.rows :=
+    rows_of_flushed g3.core (flushDirty_dirty _) hidx3
+  generalize flushDirty (setStatus (emit nd (.storeBlock (b :: p))) (b :: p) {}) = nd3 at g3 hidx3 hst3 e03 hrow3 ⊢
   by_cases h5 : p = nd3.tip
   · rw [if_pos h5]
     by_cases h6 : A.ok b nd3.utxo = true
@@ -209,30 +213,30 @@ theorem deliver_spec {base : Image A} {nd : Node A} (hA : A.Lawful) (cfg : Cfg) 
         simp only
         obtain ⟨g6, _, e6⟩ := hspec.1 rfl
         have e6' : Ext nd5 nd6 := e6
-        exact ⟨g6, Ext.trans e03 (Ext.trans e35 e6')⟩
+        exact ⟨g6, Ext.trans e03 (Ext.trans e35 e6'), fun _ => e6'.2.2.2.1 _ (e35.2.2.2.1 _ hrow3)⟩
     · rw [if_neg h6]
       obtain ⟨g4, e4, _⟩ := good_setStatus g3 (a := b :: p) { failed := true } (Or.inl hidx3)
       obtain ⟨g5, e5⟩ := good_flushDirty g4
-      exact ⟨g5, Ext.trans e03 (Ext.trans e4 e5)⟩
+      exact ⟨g5, Ext.trans e03 (Ext.trans e4 e5), fun _ => e5.2.2.2.1 _ (e4.2.2.2.1 _ hrow3)⟩
   · rw [if_neg h5]
     by_cases h7 : (b :: p).length ≤ nd3.tip.length
-    · rw [if_pos h7]; exact ⟨g3, e03⟩
+    · rw [if_pos h7]; exact ⟨g3, e03, fun _ => hrow3⟩
     · rw [if_neg h7]
       obtain ⟨g4, e4⟩ := reorg_spec hA cfg g3 hidx3
-      exact ⟨g4, Ext.trans e03 e4⟩
+      exact ⟨g4, Ext.trans e03 e4, fun _ => e4.2.2.2.1 _ hrow3⟩
 
 theorem step_spec {base : Image A} {nd : Node A} (hA : A.Lawful) (cfg : Cfg) (h : Good base nd) (o : Op) :
     Good base (step cfg nd o).1 ∧ Ext nd (step cfg nd o).1 := by
   cases o with
-  | deliver b p => exact deliver_spec hA cfg h b p
+  | deliver b p => exact ⟨(deliver_spec hA cfg h b p).1, (deliver_spec hA cfg h b p).2.1⟩
   | flushReq =>
     obtain ⟨c, e⟩ := core_flushRequired h.core h.utxo_eq
-    exact ⟨⟨c, h.utxo_eq, e.2.2 h.marker_some⟩, e⟩
+    exact ⟨⟨c, h.utxo_eq, e.2.2.1 h.marker_some⟩, e⟩
   | flushIfNeeded =>
     obtain ⟨c, e⟩ := core_flushIfNeeded cfg h.core (at_ := nd.tip) (List.suffix_refl _)
       (by have := List.IsSuffix.length_le h.core.inv.marker_anc
           rw [h.core.tip_eq] at this; exact this) h.utxo_eq
-    refine ⟨⟨c, ?_, e.2.2 h.marker_some⟩, e⟩
+    refine ⟨⟨c, ?_, e.2.2.1 h.marker_some⟩, e⟩
     show (flushIfNeeded cfg nd nd.tip).utxo = utxoOf A (flushIfNeeded cfg nd nd.tip).tip
     rw [flushIfNeeded_utxo, flushIfNeeded_tip]; exact h.utxo_eq
 
